@@ -9,7 +9,7 @@ git -C "$R" checkout -q -- . 2>/dev/null
 git -C "$R" apply "$D/patch.diff" || { echo "patch does not apply"; rm -rf "$R"; exit 9; }
 cd /verif
 for id in "$@"; do
-  VERIF_REPO="$R" ./check "$id" --tier ${TIER:-quick} > "$D/check_$id.out" 2>&1; rc=$?
+  VERIF_EVIDENCE_DIR="$D/evidence" VERIF_REPO="$R" ./check "$id" --tier ${TIER:-quick} > "$D/check_$id.out" 2>&1; rc=$?
   echo "seed $N check $id: exit $rc  $(grep -c '^VIOLATION' $D/check_$id.out) violation line(s)  $(grep -m1 '^# failed' $D/check_$id.out)"
 done
 rm -rf "$R"
